@@ -270,6 +270,9 @@ class ScriptedSim(mosaik_api_v3.Simulator):
                     if kind == "persistent" and beh.get("p_none") and \
                             H(self.seed, self.sid, eid, attr, time, k, "none") % 1000 < beh["p_none"] * 1000:
                         val = None          # a legal value of a persistent attribute
+                    elif kind == "persistent" and beh.get("dict_values"):
+                        # a structured value whose key set changes from step to step (e.g. a set of active alarms)
+                        val = {"v": val, "k%d" % (time % 3): time}
                     out.setdefault(eid, {})[attr] = val
         otime = None
         if beh.get("p_future", 0.0) and rng.random() < beh["p_future"]:
